@@ -155,6 +155,17 @@ def Net.link (cfg : Cfg) (n : Net) (via : Via) (s r : Nat) : Net × Outcome :=
           ({ n with val := updN n.val r none,
                     links := l :: n.links.filter fun k => k.via.isConnection || k.s != s }, .ok)
 
+/-- `Composite.replace_child` re-forging a value link of the replaced child (current tree): the pair is
+validated exactly as the `value_receiver` setter validates it (`_ensure_valid_value_receiver`), the link is
+made, and the sender's current value is pushed only if the receiver takes it — a refused push is dropped
+silently (like the soft value copy of `copy_io`), it no longer aborts the replacement half-way. -/
+def Net.relink (cfg : Cfg) (n : Net) (via : Via) (s r : Nat) : Net × Outcome :=
+  match n.link cfg via s r with
+  | (_, .receiverRejects) =>
+    ({ n with links := ⟨via, s, r, (n.chan r).strict⟩ ::
+                n.links.filter fun k => k.via.isConnection || k.s != s }, .ok)
+  | x => x
+
 /-- `channel.strict_hints = b` (`(de)activate_strict_hints` of a channel, an IO panel, a node) -/
 def Net.setStrict (n : Net) (i : Nat) (b : Bool) : Net :=
   { n with chan := updN n.chan i { n.chan i with strict := b } }
@@ -176,6 +187,7 @@ def Net.push (cfg : Cfg) (n : Net) (via : Via) (s r : Nat) (v : V) : Net × Outc
 
 inductive Op
   | link (via : Via) (s r : Nat)
+  | relink (via : Via) (s r : Nat)
   | strict (i : Nat) (b : Bool)
   | push (via : Via) (s r : Nat) (v : V)
   /-- `channel.value = v` on a channel (checked by the channel itself) -/
@@ -183,6 +195,7 @@ inductive Op
 
 def Net.step (cfg : Cfg) (n : Net) : Op → Net
   | .link via s r => (n.link cfg via s r).1
+  | .relink via s r => (n.relink cfg via s r).1
   | .strict i b => n.setStrict i b
   | .push via s r v => (n.push cfg via s r v).1
   | .setVal i v => if typeCheckOk cfg (n.chan i) v then { n with val := updN n.val i (some v) } else n
